@@ -149,11 +149,11 @@ type subsc struct {
 	// the client resubscribed after a restore with a non-zero index and was NOT sent a new snapshot
 	resumedAcross bool
 	caseVariant   string // health views: an update named an instance whose key differs from a key in the view only by the case of the node name
-	snapSubNo     int // ordinal of the subscription that delivered the client's latest snapshot
+	snapSubNo     int    // ordinal of the subscription that delivered the client's latest snapshot
 	nonTypical    string // service list: an update received since the last snapshot that no change of the typical-kind names accounts for
 	// obligations to have left the subscription that was open when a restore / an ACL change of the
 	// client's token took effect: cause -> number of subscribes the client had done by then
-	oblig map[string]int
+	oblig      map[string]int
 	runs       int
 	seenResets int
 }
